@@ -191,7 +191,9 @@ func instrument(machine *sm.StateMachine, l *hlog, allByIdx bool) {
 		default:
 		}
 	}
-	for _, idx := range []diam.CommandIndex{{AppID: 0, Code: 257, Request: true}, {AppID: 0, Code: 257, Request: false}, {AppID: 0, Code: 280, Request: true}} {
+	for _, idx := range []diam.CommandIndex{{AppID: 0, Code: 257, Request: true}, {AppID: 0, Code: 257, Request: false}, {AppID: 0, Code: 280, Request: true},
+		// the same commands under the id of an application (peers send CERs and DWRs with such headers)
+		{AppID: 4, Code: 257, Request: true}, {AppID: 4, Code: 257, Request: false}, {AppID: 4, Code: 280, Request: true}} {
 		machine.HandleIdx(idx, diam.HandlerFunc(spy))
 		select {
 		case <-machine.ErrorReports():
